@@ -140,7 +140,7 @@ GCStruct* gc_struct_clone(GCStruct* s) {
                               s->field_values[i], type, true);
         } else {
             /* Copy primitive value directly */
-            clone->field_names[i] = strdup(s->field_names[i]);
+            clone->field_names[i] = s->field_names[i] ? strdup(s->field_names[i]) : NULL;
             clone->field_values[i] = s->field_values[i];
             clone->field_gc_flags[i] = 0;
             clone->field_types[i] = s->field_types[i];
